@@ -168,6 +168,9 @@ class AsymmetricKey(Key):
         if isinstance(raw, Key):
             raise ValueError(f'Invalid key: a "{cls.kty}" key is required')
 
+        if raw is None:
+            raise ValueError("Missing key")
+
         if isinstance(raw, cls.PUBLIC_KEY_CLS):
             key = cls(public_key=raw, options=options)
         elif isinstance(raw, cls.PRIVATE_KEY_CLS):
